@@ -64,7 +64,7 @@ MNext ==
      /\ transferComplete' = IF k = "session" THEN FALSE ELSE IF k = "complete" THEN TRUE ELSE transferComplete
      /\ bodyOK' = IF k = "session" THEN TRUE ELSE IF k = "complete" THEN e.body = e.sent ELSE bodyOK
      /\ endv' = IF k = "end" THEN e.v ELSE endv
-     /\ cutOK' = IF k = "end" /\ Ref.has
+     /\ cutOK' = IF k = "end" /\ l = Len(Ev) /\ Ref.has
                  THEN cutOK /\ nall = Ref.replies /\ ncmds = Ref.cmds /\ e.v = Ref.v
                  ELSE cutOK
 
